@@ -6,6 +6,7 @@ prop=$1; sd=$2; i=$3; pkg=$4; tname=$5; tpkgs=$6; cprops=${7:-$prop}
 export GOFLAGS=-mod=mod GOPROXY=off
 w=$(mktemp -d /tmp/seedeval.XXXXXX)
 git -C /repo worktree add -q --detach "$w" HEAD || exit 2
+(cd /repo && find . -name contracts_verif.go -print0 | tar --null -cf - -T -) | (cd "$w" && tar xf -)  # current contract files, committed or not
 cleanup() { git -C /repo worktree remove --force "$w" 2>/dev/null; }
 trap cleanup EXIT
 cp "$sd/change${i}_demo_test.go.txt" "$w/$pkg/zz_demo_test.go"
